@@ -29,12 +29,15 @@ pub fn write_crate(tag: &str, probes: &[Probe], no_mmap: bool) -> PathBuf {
     let _ = std::fs::remove_dir_all(dir.join("src"));
     std::fs::create_dir_all(dir.join("src/bin")).unwrap();
     let feats = if no_mmap { "default-features = false, features = [\"std\", \"derive\"]" } else { "default-features = true" };
+    // crates whose tag ends in "rel" are built as a release build would be
+    let prof = if tag.ends_with("rel") { "opt-level = 1\ndebug = 0\noverflow-checks = false\ndebug-assertions = false" } else { "opt-level = 0\ndebug = 0\noverflow-checks = true" };
     let toml = format!(
-        "[package]\nname = \"vprobes_{}\"\nversion = \"0.1.0\"\nedition = \"2021\"\n\n[workspace]\n\n[dependencies]\nepserde = {{ path = \"{}/epserde\", {} }}\nmaligned = \"0.2\"\n\n[patch.crates-io]\nepserde-derive = {{ path = \"{}/epserde-derive\" }}\n\n[profile.dev]\nopt-level = 0\ndebug = 0\noverflow-checks = true\n",
+        "[package]\nname = \"vprobes_{}\"\nversion = \"0.1.0\"\nedition = \"2021\"\n\n[workspace]\n\n[dependencies]\nepserde = {{ path = \"{}/epserde\", {} }}\nmaligned = \"0.2\"\n\n[patch.crates-io]\nepserde-derive = {{ path = \"{}/epserde-derive\" }}\n\n[profile.dev]\n{}\n",
         tag.replace('-', "_"),
         REPO,
         feats,
-        REPO
+        REPO,
+        prof
     );
     std::fs::write(dir.join("Cargo.toml"), toml).unwrap();
     if std::fs::read_to_string(dir.join("Cargo.lock")).ok().map_or(true, |l| l.contains("checksum = \"ac80cc78b69765703f48ad93f33b8919cf5d907cda7459ad6ba2919cbbe605dd\"")) {
@@ -48,6 +51,9 @@ pub fn write_crate(tag: &str, probes: &[Probe], no_mmap: bool) -> PathBuf {
 
 fn cargo_json(dir: &PathBuf, sub: &str) -> (bool, BTreeMap<String, Vec<String>>, String) {
     let mut c = crate::build::cargo();
+    if dir.to_string_lossy().ends_with("rel") {
+        c.env("CARGO_TARGET_DIR", format!("{}/target-rel", WORK));
+    }
     c.arg(sub).arg("--manifest-path").arg(dir.join("Cargo.toml")).arg("--bins").arg("--keep-going").arg("--message-format=json").arg("--offline");
     let out = c.output().expect("cargo");
     let mut errs: BTreeMap<String, Vec<String>> = BTreeMap::new();
@@ -87,7 +93,7 @@ pub fn evaluate(tag: &str, probes: &[Probe], run: &dyn Fn(&str) -> bool) -> Resu
             return Err(format!("probe crate {}: build failed: {}", tag, stderr.lines().rev().take(20).collect::<Vec<_>>().join("\n")));
         }
         for p in to_run {
-            let exe = format!("{}/target/debug/{}", WORK, p.name);
+            let exe = format!("{}/{}/debug/{}", WORK, if tag.ends_with("rel") { "target-rel" } else { "target" }, p.name);
             let out = std::process::Command::new(&exe).current_dir(format!("{}/tmp", WORK)).stderr(std::process::Stdio::null()).output().map_err(|e| format!("cannot run {}: {}", exe, e))?;
             let r = res.get_mut(&p.name).unwrap();
             r.run_status = out.status.code();
